@@ -1,0 +1,53 @@
+//! Event sink for conformance checking (compiled only with `--cfg okane_verif`).
+//!
+//! Book-keeping emits one JSON line per step *after* the state change it
+//! describes; a test harness turns recording on with [`start`] and collects the
+//! lines with [`take`].  Nothing is recorded unless a harness asked for it.
+
+use std::cell::RefCell;
+
+use crate::report::{Amount, SingleAmount};
+
+thread_local! {
+    static SINK: RefCell<Option<Vec<String>>> = const { RefCell::new(None) };
+}
+
+/// Starts recording on this thread (drops anything recorded before).
+pub fn start() {
+    SINK.with(|s| *s.borrow_mut() = Some(Vec::new()));
+}
+
+/// Stops recording and returns the recorded lines.
+pub fn take() -> Vec<String> {
+    SINK.with(|s| s.borrow_mut().take().unwrap_or_default())
+}
+
+/// Records one event; `f` is only evaluated when recording is on.
+pub fn emit<F: FnOnce() -> String>(f: F) {
+    SINK.with(|s| {
+        if let Some(v) = s.borrow_mut().as_mut() {
+            v.push(f());
+        }
+    });
+}
+
+/// `{"c":"USD","m":1050,"s":2}`
+pub fn single_json(a: &SingleAmount<'_>) -> String {
+    format!(
+        "{{\"c\":{:?},\"m\":{},\"s\":{}}}",
+        a.commodity.as_str(),
+        a.value.mantissa(),
+        a.value.scale()
+    )
+}
+
+/// `[{"c":..,"m":..,"s":..},..]`, sorted by commodity name.
+pub fn amount_json(a: &Amount<'_>) -> String {
+    let mut parts: Vec<(String, String)> = a
+        .iter()
+        .map(|s| (s.commodity.as_str().to_string(), single_json(&s)))
+        .collect();
+    parts.sort();
+    let body: Vec<String> = parts.into_iter().map(|(_, j)| j).collect();
+    format!("[{}]", body.join(","))
+}
